@@ -17,7 +17,7 @@ func init() {
 		Technique:   "interprocedural guarded-task-creation analysis: every NewTask site of a snap-mutating kind must be cut (SSA CFG) from its function's entry by a successful conflict check, or every call chain leading to it must be, up to the exported entry points; guarded-sink and loop-latch rules on the conflict checker itself",
 		Explanation: "Structural necessary conditions for 'no two in-progress changes operate on the same snap': (R1) every creation of a task that links, unlinks, mounts, discards, copies data of, or otherwise mutates a snap (constant kind registered by the snap manager with a link/unlink/mount/discard/data/alias/component effect) is preceded on every path - in its own function or in every caller chain up to an exported entry point - by a successful CheckChangeConflict*/checkChangeConflictIgnoringOneChange call (ifacestate: checkAutoconnect/Disconnect/HotplugDisconnectConflicts; also accepted: a first loop that checks every element of a collection and a second loop over the same collection that creates the tasks); entry points that create such tasks without a check are reported unless listed with a reason (download-only, running inside an already exclusive change); (R2) checkChangeConflictExclusiveKinds rejects, for each exclusive change kind found in progress, unless it is the ignored change, and the creators of exclusive changes call the exclusive check; (R3) isIrrelevantChange says true only for nil, ready, ignored or the two reviewed harmless kinds; (R4) CheckChangeConflictMany advances over the tasks of the state only across irrelevant changes or tasks whose affected snaps do not intersect the requested ones, and reports a conflict otherwise; (R5) checkChangeConflictIgnoringOneChange answers nil for a caller-supplied snapshot only across reflect.DeepEqual(snapst, current); (R6) the affected-snaps registry keeps its registrations (hook-setup, service-action, snapshot-setup, quota-control, connect, disconnect, ...); (R7) the snap names handed to the conflict checks are instance names, never SnapName() results.",
 		NotDecided:  "that SnapsAffectedByTask names every snap a task really touches; conflicts between changes created in the same state lock window by different managers; remodel's internal sequencing.",
-		Run:         func(c *Ctx) { runC14(c); runC14x(c); runC14y(c) },
+		Run:         func(c *Ctx) { runC14(c); runC14x(c); runC14y(c); runC14z(c) },
 	})
 }
 
